@@ -45,17 +45,18 @@ func (f *SFile) Rel() string { return filepath.Join(f.Dir, f.Base) }
 
 // RefUse records a $ref whose resolution can be attributed through markers.
 type RefUse struct {
-	FromTag   string `json:"from"`            // referring file
-	FromDef   string `json:"from_def"`        // "" = root struct, else definition name
-	Prop      string `json:"prop"`            // JSON name of the property holding the ref
-	Ref       string `json:"ref"`             // the $ref string as written
-	ToTag     string `json:"to"`              // model target file
-	ToDef     string `json:"to_def"`          // "" = root of that file
-	ViaArray  bool   `json:"arr,omitempty"`   // property is array of ref
-	Spelling  string `json:"spelling"`        // plain, dot, dotdot, abs, fileurl, noext, symlink, fragment
-	LocalOnly bool   `json:"local,omitempty"` // same-file fragment ref
-	Combo     string `json:"combo,omitempty"` // "allOf"/"anyOf": the ref is a branch next to a branch holding the cb_ marker
-	CB        string `json:"cb,omitempty"`    // name of that cb_ marker property
+	FromTag   string `json:"from"`                 // referring file
+	FromDef   string `json:"from_def"`             // "" = root struct, else definition name
+	Prop      string `json:"prop"`                 // JSON name of the property holding the ref
+	Ref       string `json:"ref"`                  // the $ref string as written
+	ToTag     string `json:"to"`                   // model target file
+	ToDef     string `json:"to_def"`               // "" = root of that file
+	ViaArray  bool   `json:"arr,omitempty"`        // property is array of ref
+	Spelling  string `json:"spelling"`             // plain, dot, dotdot, abs, fileurl, noext, symlink, fragment
+	LocalOnly bool   `json:"local,omitempty"`      // same-file fragment ref
+	Combo     string `json:"combo,omitempty"`      // "allOf"/"anyOf": the ref is a branch next to a branch holding the cb_ marker
+	CB        string `json:"cb,omitempty"`         // name of that cb_ marker property
+	PureAlias bool   `json:"pure_alias,omitempty"` // the ref names a definition that is only {"$ref": ...}: untyped today
 }
 
 type Link struct {
@@ -294,6 +295,7 @@ type Feat struct {
 	PlainMarkers                                                           bool // no allOf/anyOf $ref branches (merged copies would carry markers too); every id is emitted
 	ReqCycle                                                               bool // a recursive $ref property may be required (schema no finite document satisfies)
 	SharedID                                                               bool // two different documents carry the same $id
+	SlashDef                                                               bool // a definition named "<Def>/x" next to <Def>
 }
 
 func drawFeat(t *rapid.T) Feat {
@@ -681,6 +683,74 @@ func genWorld(t *rapid.T, maxFiles int, recCombo, http, shadows bool) *World {
 				KV{f.Tag + "gztagged", Obj{{"allOf", []any{ref("GzMeta"), Obj{{"type", "object"}, {"properties", Obj{{cb, str}}}}}}}})
 			f.Doc = f.Doc.Set("properties", po)
 			f.Refs = append(f.Refs, RefUse{FromTag: f.Tag, Prop: f.Tag + "gztagged", Ref: "#/" + key + "/GzMeta", ToTag: f.Tag, ToDef: "GzMeta", Spelling: "scopegadget", LocalOnly: true, Combo: "allOf", CB: cb})
+			break
+		}
+	}
+	if SameNameTwins && rapid.IntRange(0, 5).Draw(t, "aliascycle") == 0 {
+		// a definition that is ONLY another name for a marker definition ({"$ref": "#/$defs/T0Da"}, sorting before it) and
+		// sits on a cycle: T0Da.kids = array of the alias, T0Da.next = the alias. Today a reference to such a definition
+		// is an interface{}; whatever it becomes, it must be a declared type that carries T0Da's marker (seeded change
+		// s87: the placeholder declared while the alias is being resolved was captured by the cycle and never emitted).
+		for _, f := range w.Files {
+			if isSpecial(f) || !f.RootObj || len(f.Defs) == 0 || strings.HasPrefix(f.Defs[0], "Shared") || f.Defs[0] == f.ClashDef {
+				continue
+			}
+			key := defsKey(f.Doc)
+			dv, ok := f.Doc.Get(key)
+			defs, _ := dv.(Obj)
+			target := f.Defs[0]
+			body, ok2 := defs.Get(target)
+			bo, _ := body.(Obj)
+			pv, ok3 := bo.Get("properties")
+			po, _ := pv.(Obj)
+			if !ok || !ok2 || !ok3 {
+				continue
+			}
+			alias := strings.ToUpper(f.Tag[:1]) + f.Tag[1:] + "Aa" // T0Aa < T0Da: generated first
+			ref := Obj{{"$ref", "#/" + key + "/" + alias}}
+			po = append(append(Obj{}, po...), KV{f.Tag + "alkids", Obj{{"type", "array"}, {"items", ref}}}, KV{f.Tag + "alnext", ref})
+			nd := append(Obj{}, defs...).Set(target, append(Obj{}, bo...).Set("properties", po))
+			nd = append(nd, KV{alias, Obj{{"$ref", "#/" + key + "/" + target}}})
+			f.Doc = f.Doc.Set(key, nd)
+			rp, _ := f.Doc.Get("properties")
+			rpo, _ := rp.(Obj)
+			f.Doc = f.Doc.Set("properties", append(append(Obj{}, rpo...), KV{f.Tag + "alroot", ref}))
+			for _, ru := range []RefUse{
+				{FromTag: f.Tag, FromDef: target, Prop: f.Tag + "alkids", ViaArray: true},
+				{FromTag: f.Tag, FromDef: target, Prop: f.Tag + "alnext"},
+				{FromTag: f.Tag, Prop: f.Tag + "alroot"},
+			} {
+				ru.Ref, ru.ToTag, ru.ToDef, ru.Spelling, ru.LocalOnly, ru.PureAlias = "#/"+key+"/"+alias, f.Tag, target, "purealias", true, true
+				f.Refs = append(f.Refs, ru)
+			}
+			break
+		}
+	}
+	if SameNameTwins && rapid.IntRange(0, 5).Draw(t, "slashdef") == 0 {
+		// a definition whose NAME contains a slash ("T0Da/x", like media types: "text/plain") next to the definition
+		// named like the part before the slash: "#/$defs/T0Da/x" denotes the former (the literal key; read strictly as a
+		// JSON pointer it denotes nothing at all) - never T0Da (seeded change s88: a walker for nested definitions
+		// that stops at the longest prefix it can follow)
+		for _, f := range w.Files {
+			if isSpecial(f) || !f.RootObj || len(f.Defs) == 0 || strings.HasPrefix(f.Defs[0], "Shared") || f.Defs[0] == f.ClashDef {
+				continue
+			}
+			key := defsKey(f.Doc)
+			dv, ok := f.Doc.Get(key)
+			defs, _ := dv.(Obj)
+			rp, ok2 := f.Doc.Get("properties")
+			rpo, _ := rp.(Obj)
+			if !ok || !ok2 {
+				continue
+			}
+			name := f.Defs[0] + "/x"
+			str := Obj{{"type", "string"}}
+			nd := append(append(Obj{}, defs...), KV{name, Obj{{"type", "object"}, {"properties", Obj{{"mk_" + f.Tag + "_" + name, str}, {f.Tag + "slval", Obj{{"type", "integer"}}}}}, {"required", []any{f.Tag + "slval"}}}})
+			f.Doc = f.Doc.Set(key, nd)
+			f.Doc = f.Doc.Set("properties", append(append(Obj{}, rpo...), KV{f.Tag + "slref", Obj{{"$ref", "#/" + key + "/" + name}}}))
+			f.Defs = append(f.Defs, name)
+			f.Refs = append(f.Refs, RefUse{FromTag: f.Tag, Prop: f.Tag + "slref", Ref: "#/" + key + "/" + name, ToTag: f.Tag, ToDef: name, Spelling: "slashname", LocalOnly: true})
+			w.Feat.SlashDef = true
 			break
 		}
 	}
